@@ -130,13 +130,14 @@ class Plan:
         self.abstract_levels = {}
         self.probes = {}
         self.refused = False  # request refused before execution (operation / variables)
+        self.over = {}
 
     def probe(self, n):
         self.probes[n] = self.probes.get(n, 0) + 1
 
 
 class RefExec:
-    def __init__(self, schema, doc, tape, stream="data", faults=None, knobs=None, shared_exc=None):
+    def __init__(self, schema, doc, tape, stream="data", faults=None, knobs=None, base_over=None):
         self.s = schema
         self.doc = doc
         self.tape = tape
@@ -147,6 +148,7 @@ class RefExec:
             self.k.update(knobs)
         self.frags = doc.fragments()
         self.plan = Plan()
+        self.base_over = base_over  # budget decisions of the fault-free plan (position -> bool)
         self.tok = 0
 
     def tp(self, path, purpose=""):
@@ -247,7 +249,7 @@ class RefExec:
         for key, fields in groups.items():
             fname = fields[0].name
             fpath = path + (key,)
-            self.plan.field_nodes[_strip(fpath)] = fields
+            self.plan.field_nodes[fpath] = fields
             if len(fields) > 1:
                 self.plan.probe("merged_field_nodes")
             if fname == "__typename":
@@ -365,7 +367,11 @@ class RefExec:
                 return FaultError(self.token(path))
             if fault == "bad_value":
                 return self.bad_value(ty, path)
-        over = self.plan.instances > k["budget"]
+        if self.base_over is not None:
+            over = self.base_over.get(path, True)
+        else:
+            over = self.plan.instances > k["budget"]
+        self.plan.over[path] = over
         if not is_nn(ty):
             if t.chance(k["null_pct"]) or (over and self.s.is_composite(named(ty))):
                 return None
@@ -633,7 +639,11 @@ class FaultError(Exception):
 
 
 def _strip(path):
-    return tuple(x for x in path if not isinstance(x, int))
+    """The field's own path: drop the trailing list indices of an item position."""
+    path = tuple(path)
+    while path and isinstance(path[-1], int):
+        path = path[:-1]
+    return path
 
 
 def enumerate_fault_sites(plan):
